@@ -260,6 +260,7 @@ def _d2_by_algebra(eng, ctx, mb, T, sat_field, sig_field, cell_field, consumer_f
     if not scan_checks(sig_field, gB, bit_of(cB[0])[1], eB, "signal list"):
         return None
     out["labels"].append(eB)
+    out["elts"] = [nsat.elt, eB]
     pa, pb = sa.pc((gA,), (cA[0],)), sa.pc((gB,), (cB[0],))
     na, nb = sa.cnt((gA,), (cA[0],)), sa.cnt((gB,), (cB[0],))
     sa._note(pa), sa._note(pb), sa._note(na), sa._note(nb)
@@ -723,22 +724,35 @@ def run(eng, ctx, layout_only=False):
     ctx.rule("C09.D4", "for every `T.get(k, D)` whose result is subscripted [c], D is subscriptable like T's values and yields the N/A marker at [c]")
     nget = 0
     gets = {}
-    for e in se.effects:
-        if e.kind == "call" and e.term[2][0] == "attr" and e.term[2][2] == "get" and len(e.term[3]) == 2 and e.loops:  # the label lookups of the scans
-            gets[e.term[1]] = e
     used_sub = {}
-    allterms = [e.term for e in se.effects] + [e.target for e in se.effects if e.target]
-    for t in allterms:
-        for st in subterms(t):
-            if isinstance(st, tuple) and st and st[0] == "idx" and st[1][0] == "call" and st[1][1] in gets and is_const(st[2]):
-                used_sub.setdefault(st[1][1], set()).add(st[2][1])
-    for uid, e in sorted(gets.items()):
+    if alg and alg.get("elts"):
+        # on the normal form: every label lookup of the two maps with the constant positions its result is subscripted at (wherever in the code that happens)
+        anchor = type("E", (), {"node": mb.node})
+        for k_, t_ in enumerate(alg["elts"]):
+            for st in subterms(t_):
+                if isinstance(st, tuple) and st and st[0] == "call" and len(st) == 5 and st[2][0] == "attr" and st[2][2] == "get" and len(st[3]) == 2:
+                    key_ = (k_, st)
+                    if key_ not in gets:
+                        ev = type("E", (), {"node": mb.node, "term": ("call", key_) + st[2:]})()
+                        gets[key_] = ev
+                if isinstance(st, tuple) and st and st[0] == "idx" and isinstance(st[1], tuple) and st[1][0] == "call" and len(st[1]) == 5 and st[1][2][0] == "attr" and st[1][2][2] == "get" and is_const(st[2]):
+                    used_sub.setdefault((k_, st[1]), set()).add(st[2][1])
+    else:
+        for e in se.effects:
+            if e.kind == "call" and e.term[2][0] == "attr" and e.term[2][2] == "get" and len(e.term[3]) == 2 and e.loops:  # the label lookups of the scans
+                gets[e.term[1]] = e
+        allterms = [e.term for e in se.effects] + [e.target for e in se.effects if e.target]
+        for t in allterms:
+            for st in subterms(t):
+                if isinstance(st, tuple) and st and st[0] == "idx" and st[1][0] == "call" and st[1][1] in gets and is_const(st[2]):
+                    used_sub.setdefault(st[1][1], set()).add(st[2][1])
+    for uid, e in sorted(gets.items(), key=lambda kv: repr(kv[0])):
         nget += 1
         d = e.term[3][1]
         loc = eng.loc(mb, e.node)
         subs = used_sub.get(uid, set())
         if not subs:
-            ctx.check(d == ("const", NA), "C09.D4", mb.qualname, norm(e.node)[:60], expected=f"default {NA!r}", found=show(d), **loc)
+            ctx.check(d == ("const", NA), "C09.D4", mb.qualname, (norm(e.node)[:60] if isinstance(e.node, ast.Call) else f"{show(e.term[2][1])[-30:]}.get(..)"), expected=f"default {NA!r}", found=show(d), **loc)
             continue
         okd = True
         found = []
@@ -755,6 +769,6 @@ def run(eng, ctx, layout_only=False):
             else:
                 okd = False
                 found.append(f"default {show(d)[:30]}")
-        ctx.check(okd, "C09.D4", mb.qualname, norm(e.node)[:60], expected=f"default subscriptable like the table values, {NA!r} at each used position", found=f"default {show(d)}: " + ", ".join(found), **loc)
+        ctx.check(okd, "C09.D4", mb.qualname, (norm(e.node)[:60] if isinstance(e.node, ast.Call) else f"{show(e.term[2][1])[-30:]}.get(..)"), expected=f"default subscriptable like the table values, {NA!r} at each used position", found=f"default {show(d)}: " + ", ".join(found), **loc)
     ctx.instance(".get sites in the map builder", nget, 2)
     SH.decoder_reads_no_mutable_state(eng, ctx, "C13.D1")
